@@ -625,6 +625,12 @@ def joinOpts (st : Store) (t rhs : Rel) (pred : Pred) (o : Opts) : Except Err Re
   | .error e => .error e
   | .ok j => applyOp st defaultFuel (.pj ⟨j, rhs, false⟩) t o
 
+/-- `Join(pred).partial(fixed, is_lhs=True).apply(t, <every option>)`: the fixed relation is the LEFT operand. -/
+def joinOptsL (st : Store) (t fixed : Rel) (pred : Pred) (o : Opts) : Except Err Res :=
+  match JoinOp.make pred [] none with
+  | .error e => .error e
+  | .ok j => applyOp st defaultFuel (.pj ⟨j, fixed, true⟩) t o
+
 /-- `Join(pred, max_columns=S).partial(rhs).apply(t, <every option>)`: automatic common columns,
 capped by `S`. -/
 def joinMax (st : Store) (t rhs : Rel) (pred : Pred) (cap : Cols) (o : Opts) : Except Err Res :=
